@@ -132,3 +132,23 @@ Proof.
   - destruct (alloc_names_total (map ri_field_base infos) []) as [ns ->]. discriminate.
   - intro H. injection H as ->. exact (relation_infos_no_diverge s t RI).
 Qed.
+
+(* the relation-enum disambiguation (seaorm/mod.rs:537-544) is loop free in the model as in the code: a colliding name
+   gets the PascalCase table name appended ONCE ([alloc_enums]: `if mem first used then alt else first`), with no
+   re-check — so a table whose PascalCase name is empty (`_`, `__`, `-`) simply yields the same enum twice (a member
+   of the class known_C17_clash), and [members_never_diverge] covers it: there is no fuel to exhaust on that path *)
+Definition sep_user : table_def :=
+  mkTable "user" None [mkCol "id" (TSimple Integer) false None None None None None None] [CPrimaryKey false ["id"]].
+Definition sep_table : table_def :=
+  mkTable "_" None
+    [mkCol "id" (TSimple Integer) false None None None None None None;
+     mkCol "owner_id" (TSimple Integer) true None None None None None None;
+     mkCol "owner" (TSimple Integer) true None None None None None None]
+    [CPrimaryKey false ["id"]; CForeignKey None ["owner_id"] "user" ["id"] None None;
+     CForeignKey None ["owner"] "user" ["id"] None None].
+Example separator_table_renders :
+  to_pascal_case "_" = ""
+  /\ (exists d, members [sep_user; sep_table] sep_table = Ok d
+                /\ flat_map member_relation_enum (d_members d) = ["Owner"; "Owner"])
+  /\ known_C17_clash [sep_user; sep_table] sep_table = true.
+Proof. split; [reflexivity|]. split; [eexists; split; vm_compute; reflexivity | vm_compute; reflexivity]. Qed.
